@@ -1,1 +1,505 @@
+(* C15 lemmas: the slot window on wrapped uint64 arithmetic, the per-slot chain
+   (prepare -> message -> aggregation), independence of the members, subcommittee / selection. *)
 From Verif Require Import Lib.Base Model.C15_Sync.
+From Coq Require Import ZifyBool ZifyN ZifyNat Permutation.
+Local Open Scope N_scope.
+
+(* ============================================================================================ *)
+(* 1. The window.                                                                               *)
+
+(* The chain parameters the code can run with: a positive number of slots per epoch and of epochs
+   per period (both are divisors in the code), and a period of at least two slots (lastSlot is the
+   period's first-after slot minus two). *)
+Definition chain_ok (p : params) : Prop := 0 < spe p /\ 0 < epp p /\ 2 <= spe p * epp p.
+
+(* Everything the window computes fits uint64: the clock, and the first slot after the period of
+   [epoch] (fork-clamped).  Ethereum mainnet reaches this bound after ~7 * 10^12 years. *)
+Definition in_range (p : params) (epoch cur : N) : Prop :=
+  cur < two64 /\ fork p * spe p < two64 /\ (epoch / epp p + 1) * epp p * spe p < two64.
+
+(* exact (unbounded) arithmetic of the specification *)
+Definition period_first_epoch (p : params) (epoch : N) : N := N.max (epoch / epp p * epp p) (fork p).
+Definition period_next_epoch (p : params) (epoch : N) : N := N.max ((epoch / epp p + 1) * epp p) (fork p).
+(* first slot of the (fork-clamped) period, and first slot after it; the period's last slot is
+   [period_end - 1] *)
+Definition period_start (p : params) (epoch : N) : N := period_first_epoch p epoch * spe p.
+Definition period_end (p : params) (epoch : N) : N := period_next_epoch p epoch * spe p.
+(* first slot with a message: the one before the period's first slot, saturating at slot 0 (there
+   is no slot before slot 0), or the current slot if later *)
+Definition spec_first (p : params) (epoch cur : N) : N := N.max (period_start p epoch - 1) cur.
+(* last slot with a message: the one before the period's last slot *)
+Definition spec_last (p : params) (epoch : N) : N := period_end p epoch - 2.
+
+Lemma wrap64_small : forall x, x < two64 -> wrap64 x = x.
+Proof. intros x H. unfold wrap64. apply N.mod_small. exact H. Qed.
+
+Lemma mul_le_l : forall a b c, a * c < two64 -> 0 < c -> b <= a -> b * c < two64.
+Proof. intros a b c H Hc Hb. nia. Qed.
+
+Lemma le_mul_pos : forall a c, 0 < c -> a <= a * c.
+Proof. intros. nia. Qed.
+
+Lemma div_mul_le : forall a b, 0 < b -> a / b * b <= a.
+Proof. intros a b Hb. pose proof (N.mul_div_le a b). lia. Qed.
+
+Section Window.
+  Variable p : params.
+  Variables epoch cur : N.
+  Hypothesis Hok : chain_ok p.
+  Hypothesis Hr : in_range p epoch cur.
+
+  Let q := epoch / epp p.
+
+  Lemma bounds :
+    q * epp p < two64 /\ (q + 1) * epp p < two64 /\ q + 1 < two64 /\ fork p < two64
+    /\ q * epp p * spe p < two64 /\ cur / spe p * spe p <= cur /\ cur / spe p < two64
+    /\ 2 <= (q + 1) * epp p * spe p /\ 1 <= (q + 1) * epp p.
+  Proof.
+    destruct Hok as (Hs & He & H2). destruct Hr as (Hc & Hf & Hq). fold q in Hq.
+    pose proof (div_mul_le cur (spe p) Hs) as Hd.
+    assert (cur / spe p <= cur) by (pose proof (le_mul_pos (cur / spe p) (spe p) Hs); lia).
+    repeat split; try nia; try lia.
+  Qed.
+
+  Lemma first_epoch_exact : first_epoch_of_period p q = period_first_epoch p epoch.
+  Proof.
+    destruct bounds as (B1 & _).
+    unfold first_epoch_of_period, period_first_epoch, mul64. fold q.
+    rewrite (wrap64_small _ B1).
+    destruct (N.ltb_spec (q * epp p) (fork p)); lia.
+  Qed.
+
+  Lemma next_epoch_exact : first_epoch_of_period p (add64 q 1) = period_next_epoch p epoch.
+  Proof.
+    destruct bounds as (_ & B2 & B3 & _).
+    unfold first_epoch_of_period, period_next_epoch, mul64, add64. fold q.
+    rewrite (wrap64_small _ B3), (wrap64_small _ B2).
+    destruct (N.ltb_spec ((q + 1) * epp p) (fork p)); lia.
+  Qed.
+
+  Lemma period_end_ge_2 : 2 <= period_end p epoch /\ period_end p epoch < two64 /\ 1 <= period_next_epoch p epoch
+                          /\ period_next_epoch p epoch < two64.
+  Proof.
+    destruct bounds as (B1 & B2 & B3 & B4 & B5 & B6 & B7 & B8 & B9).
+    destruct Hr as (Hc & Hf & Hq). fold q in Hq. destruct Hok as (Hs & He & H2).
+    unfold period_end, period_next_epoch. fold q.
+    rewrite <- N.mul_max_distr_r. repeat split; lia.
+  Qed.
+
+  (* the four components of the window on the wrapped arithmetic are those of the exact one *)
+  Lemma window_exact :
+    window_of true p epoch cur =
+      {| w_first_epoch := N.max (period_first_epoch p epoch) (cur / spe p);
+         w_first := spec_first p epoch cur;
+         w_last := spec_last p epoch;
+         w_until := period_next_epoch p epoch |}.
+  Proof.
+    destruct bounds as (B1 & B2 & B3 & B4 & B5 & B6 & B7 & B8 & B9).
+    destruct period_end_ge_2 as (E1 & E2 & E3 & E4).
+    destruct Hr as (Hc & Hf & Hq). fold q in Hq. destruct Hok as (Hs & He & H2).
+    unfold window_of. fold q. rewrite first_epoch_exact, next_epoch_exact.
+    unfold epoch_of_slot, first_slot_of_epoch, spec_first, spec_last, period_start.
+    set (fe0 := period_first_epoch p epoch) in *.
+    set (ne := period_next_epoch p epoch) in *.
+    assert (Hfe0 : fe0 * spe p < two64).
+    { unfold fe0, period_first_epoch. fold q. rewrite <- N.mul_max_distr_r. lia. }
+    assert (Hsub1 : sub64 ne 1 = ne - 1) by (unfold sub64; destruct (N.leb_spec 1 ne); lia).
+    rewrite Hsub1.
+    assert (Hadd : add64 (ne - 1) 1 = ne).
+    { unfold add64. rewrite wrap64_small by lia. lia. }
+    rewrite Hadd.
+    assert (Hls : sub64 (mul64 ne (spe p)) 2 = period_end p epoch - 2).
+    { unfold mul64, period_end. fold ne. unfold period_end in E1, E2. fold ne in E1, E2.
+      rewrite wrap64_small by lia. unfold sub64. destruct (N.leb_spec 2 (ne * spe p)); lia. }
+    rewrite Hls.
+    f_equal.
+    - destruct (N.ltb_spec fe0 (cur / spe p)); lia.
+    - destruct (N.ltb_spec fe0 (cur / spe p)) as [Hlt|Hge].
+      + (* the period began before the current epoch: the window starts now *)
+        unfold mul64. rewrite wrap64_small by lia.
+        assert (fe0 * spe p <= cur / spe p * spe p) by (apply N.mul_le_mono_r; lia).
+        destruct (N.ltb_spec 0 (cur / spe p * spe p));
+          match goal with |- context [?a <? cur] => destruct (N.ltb_spec a cur) end; lia.
+      + unfold mul64. rewrite wrap64_small by lia.
+        destruct (N.ltb_spec 0 (fe0 * spe p));
+          match goal with |- context [?a <? cur] => destruct (N.ltb_spec a cur) end; lia.
+  Qed.
+End Window.
+
+(* -------------------------------------------------------------------------------------------- *)
+(* the loop "for slot := firstSlot; slot <= lastSlot; slot++" *)
+
+Lemma range_In : forall lo hi s, In s (range lo hi) <-> lo <= s <= hi.
+Proof.
+  intros lo hi s. unfold range. destruct (N.ltb_spec hi lo) as [H|H].
+  - cbn. lia.
+  - rewrite in_map_iff. split.
+    + intros (i & <- & Hi). apply in_seq in Hi. lia.
+    + intros Hs. exists (N.to_nat (s - lo)). split; [lia|]. apply in_seq. lia.
+Qed.
+
+Lemma range_NoDup : forall lo hi, NoDup (range lo hi).
+Proof.
+  intros lo hi. unfold range. destruct (hi <? lo); [constructor|].
+  apply FinFun.Injective_map_NoDup; [|apply seq_NoDup].
+  intros a b Hab. lia.
+Qed.
+
+Lemma NoDup_filter : forall (A : Type) (f : A -> bool) l, NoDup l -> NoDup (filter f l).
+Proof.
+  intros A f l H. induction H as [|x l Hx Hl IH]; cbn; [constructor|].
+  destruct (f x); [constructor; [rewrite filter_In; tauto | exact IH] | exact IH].
+Qed.
+
+(* The slots scheduled by the loop, as the model computes them on wrapped arithmetic, are exactly
+   the slots of the specification: from max(first-1, now) to last-1 of the fork-clamped period of
+   [epoch], without the current slot when [notcur]; each of them once. *)
+Lemma window_slots_spec : forall p epoch cur notcur s,
+  chain_ok p -> in_range p epoch cur ->
+  (In s (window_slots true p epoch cur notcur) <->
+   spec_first p epoch cur <= s <= spec_last p epoch /\ (notcur = true -> s <> cur)).
+Proof.
+  intros p epoch cur notcur s Hok Hr. unfold window_slots.
+  rewrite (window_exact p epoch cur Hok Hr). cbn [w_first w_last].
+  rewrite filter_In, range_In.
+  destruct notcur, (N.eqb_spec s cur); cbn; split; intros [H1 H2]; split; auto; try congruence; try lia;
+    try (exfalso; apply H2; auto; fail).
+Qed.
+
+Lemma window_slots_NoDup : forall g p epoch cur notcur, NoDup (window_slots g p epoch cur notcur).
+Proof. intros. unfold window_slots. apply NoDup_filter, range_NoDup. Qed.
+
+(* No subtraction of the repaired window wraps, and no product or sum overflows: the three uint64
+   subtractions (lastEpoch = next-1, lastSlot = first-after-slot-2, the guarded firstSlot--) have
+   a minuend at least as large as the subtrahend. *)
+Lemma window_no_wrap : forall p epoch cur,
+  chain_ok p -> in_range p epoch cur ->
+  let q := epoch / epp p in
+  let ne := first_epoch_of_period p (add64 q 1) in
+  let fe := w_first_epoch (window_of true p epoch cur) in
+  1 <= ne /\ 2 <= first_slot_of_epoch p (add64 (sub64 ne 1) 1)
+  /\ ne = period_next_epoch p epoch
+  /\ first_slot_of_epoch p (add64 (sub64 ne 1) 1) = period_end p epoch
+  /\ first_slot_of_epoch p fe = fe * spe p
+  /\ (0 < first_slot_of_epoch p fe -> 1 <= first_slot_of_epoch p fe).
+Proof.
+  intros p epoch cur Hok Hr q ne fe.
+  destruct (period_end_ge_2 p epoch cur Hok Hr) as (E1 & E2 & E3 & E4).
+  destruct (bounds p epoch cur Hok Hr) as (B1 & B2 & B3 & B4 & B5 & B6 & B7 & B8 & B9).
+  assert (Hne : ne = period_next_epoch p epoch) by (apply (next_epoch_exact p epoch cur Hok Hr)).
+  assert (Hs : sub64 ne 1 = ne - 1) by (unfold sub64; destruct (N.leb_spec 1 ne); lia).
+  assert (Ha : add64 (ne - 1) 1 = ne) by (unfold add64; rewrite wrap64_small by lia; lia).
+  assert (Hm : first_slot_of_epoch p ne = period_end p epoch).
+  { unfold first_slot_of_epoch, mul64, period_end. rewrite Hne. apply wrap64_small. exact E2. }
+  rewrite Hs, Ha, Hm.
+  assert (Hfe : first_slot_of_epoch p fe = fe * spe p).
+  { unfold fe. rewrite (window_exact p epoch cur Hok Hr). cbn [w_first_epoch].
+    unfold first_slot_of_epoch, mul64. apply wrap64_small.
+    destruct Hr as (Hc & Hf & Hq). destruct Hok as (Hsp & He & H2).
+    rewrite <- N.mul_max_distr_r. unfold period_first_epoch. rewrite <- N.mul_max_distr_r.
+    fold q in B1, B5 |- *. lia. }
+  repeat split; try lia; try assumption.
+Qed.
+
+(* Before the repair ("FirstSlotOfEpoch(firstEpoch) - 1" in uint64) the window differs from the
+   repaired one exactly when the first slot is slot 0 ... *)
+Lemma unguarded_same_unless_slot0 : forall p epoch cur,
+  0 < first_slot_of_epoch p (w_first_epoch (window_of true p epoch cur)) ->
+  first_slot_of_epoch p (w_first_epoch (window_of true p epoch cur)) < two64 ->
+  window_of false p epoch cur = window_of true p epoch cur.
+Proof.
+  intros p epoch cur H0 H1. unfold window_of in *. cbn [w_first_epoch] in *.
+  set (fe := if _ <? epoch_of_slot p cur then _ else _) in *.
+  set (fs0 := first_slot_of_epoch p fe) in *.
+  assert (Hs : sub64 fs0 1 = fs0 - 1) by (unfold sub64; destruct (N.leb_spec 1 fs0); lia).
+  rewrite Hs. destruct (N.ltb_spec 0 fs0); [reflexivity | lia].
+Qed.
+
+(* ... and there it wraps to 2^64-1: a vouch that is in epoch 0 of a chain whose Altair fork is at
+   genesis scheduled no message at all for the first period, whatever the parameters, while the
+   specification (and the repaired code) has every slot from now to the one before the last. *)
+Lemma unguarded_wraps_at_epoch0 : forall p epoch cur notcur,
+  chain_ok p -> in_range p epoch cur ->
+  fork p = 0 -> epoch < epp p -> cur < spe p ->
+  w_first (window_of false p epoch cur) = two64 - 1
+  /\ window_slots false p epoch cur notcur = []
+  /\ (forall s, cur < s <= spe p * epp p - 2 -> In s (window_slots true p epoch cur notcur)).
+Proof.
+  intros p epoch cur notcur Hok Hr Hf He Hc.
+  destruct (period_end_ge_2 p epoch cur Hok Hr) as (E1 & E2 & E3 & E4).
+  assert (Hq : epoch / epp p = 0) by (apply N.div_small; exact He).
+  assert (Hce : cur / spe p = 0) by (apply N.div_small; exact Hc).
+  assert (Hpe : period_end p epoch = spe p * epp p).
+  { unfold period_end, period_next_epoch. rewrite Hq, Hf. lia. }
+  assert (Hw : w_first (window_of false p epoch cur) = two64 - 1 /\ w_last (window_of false p epoch cur) = spe p * epp p - 2).
+  { pose proof (window_exact p epoch cur Hok Hr) as Hx.
+    assert (Hl : w_last (window_of false p epoch cur) = w_last (window_of true p epoch cur)) by reflexivity.
+    rewrite Hx in Hl. cbn [w_last] in Hl. unfold spec_last in Hl. rewrite Hpe in Hl.
+    split; [|exact Hl].
+    unfold window_of. cbn [w_first]. unfold epoch_of_slot, first_epoch_of_period, first_slot_of_epoch.
+    rewrite Hq, Hce, Hf.
+    assert (Hm0 : forall x, mul64 0 x = 0) by (intro x; unfold mul64; rewrite N.mul_0_l; reflexivity).
+    rewrite !Hm0. change (0 <? 0) with false. cbv iota. rewrite ?Hm0.
+    change (sub64 0 1) with (two64 - 1).
+    destruct Hr as (Hcur & _). destruct (N.ltb_spec (two64 - 1) cur); [lia | reflexivity]. }
+  destruct Hw as (Hw1 & Hw2).
+  split; [exact Hw1|]. split.
+  - unfold window_slots. rewrite Hw1, Hw2. unfold range.
+    destruct (N.ltb_spec (spe p * epp p - 2) (two64 - 1)) as [_|Hge]; [reflexivity|].
+    rewrite Hpe in E2. lia.
+  - intros s Hs. apply (window_slots_spec p epoch cur notcur s Hok Hr).
+    unfold spec_first, spec_last, period_start, period_first_epoch. rewrite Hpe, Hq, Hf.
+    split; [lia|]. intros _. lia.
+Qed.
+
+(* -------------------------------------------------------------------------------------------- *)
+(* scheduleSyncCommitteeMessages as a whole *)
+
+(* the call reaches the scheduling loop *)
+Definition ready (p : params) (i : sched_in) : Prop :=
+  si_indices i <> [] /\ fork p <= epoch_of_slot p (si_cur i)
+  /\ (exists d ds, si_duties i = Some (d :: ds)) /\ si_accts i <> None.
+
+Lemma ready_dec : forall p i, ready p i \/ ~ ready p i.
+Proof.
+  intros p i. unfold ready.
+  destruct (si_indices i) as [|x xs]; [right; intros (H & _); congruence|].
+  destruct (N.leb_spec (fork p) (epoch_of_slot p (si_cur i))) as [Hf|Hf]; [|right; intros (_ & H & _); lia].
+  destruct (si_duties i) as [[|d ds]|]; [right; intros (_ & _ & (d & ds & H) & _); congruence | |
+                                          right; intros (_ & _ & (d & ds & H) & _); congruence].
+  destruct (si_accts i); [|right; intros (_ & _ & _ & H); congruence].
+  left. repeat split; try congruence; eauto.
+Qed.
+
+Lemma schedule_ready : forall p i, ready p i ->
+  so_jobs (schedule p i) = map (fun s => (JPrepare, s, prepare_time p s))
+                               (window_slots true p (si_epoch i) (si_cur i) (si_notcur i))
+  /\ so_query (schedule p i) = Some (w_first_epoch (window_of true p (si_epoch i) (si_cur i)))
+  /\ so_sub (schedule p i) = option_map (fun ds => (w_until (window_of true p (si_epoch i) (si_cur i)), ds)) (si_duties i).
+Proof.
+  intros p i (Hi & Hf & (d & ds & Hd) & Ha). unfold schedule.
+  destruct (si_indices i) as [|x xs]; [congruence|].
+  destruct (N.ltb_spec (epoch_of_slot p (si_cur i)) (fork p)) as [H|_]; [lia|].
+  rewrite Hd. destruct (si_accts i); [|congruence]. cbn. auto.
+Qed.
+
+Lemma schedule_not_ready : forall p i, ~ ready p i -> so_jobs (schedule p i) = [] /\ so_sub (schedule p i) = None.
+Proof.
+  intros p i H. unfold schedule.
+  destruct (si_indices i) as [|x xs] eqn:Ei; [cbn; auto|].
+  destruct (N.ltb_spec (epoch_of_slot p (si_cur i)) (fork p)) as [Hlt|Hge]; [cbn; auto|].
+  destruct (si_duties i) as [[|d ds]|] eqn:Ed; [cbn; auto | | cbn; auto].
+  destruct (si_accts i) eqn:Ea; [|cbn; auto].
+  exfalso. apply H. unfold ready. rewrite Ei, Ed, Ea. repeat split; try congruence; try lia. eauto.
+Qed.
+
+(* The job table after the call: one prepare job per slot of the specification's window, 1.5 slots
+   ahead of the slot, and nothing else. *)
+Lemma schedule_jobs_spec : forall p i k s t,
+  chain_ok p -> in_range p (si_epoch i) (si_cur i) ->
+  (In (k, s, t) (so_jobs (schedule p i)) <->
+   ready p i /\ k = JPrepare /\ t = prepare_time p s
+   /\ spec_first p (si_epoch i) (si_cur i) <= s <= spec_last p (si_epoch i)
+   /\ (si_notcur i = true -> s <> si_cur i)).
+Proof.
+  intros p i k s t Hok Hr. split.
+  - intros H.
+    assert (Hrd : ready p i).
+    { destruct (ready_dec p i) as [Hy|Hn]; [exact Hy|].
+      destruct (schedule_not_ready p i Hn) as (Hj & _). rewrite Hj in H. destruct H. }
+    split; [exact Hrd|].
+    destruct (schedule_ready p i Hrd) as (Hj & _). rewrite Hj in H.
+    apply in_map_iff in H. destruct H as (s' & Heq & Hs'). injection Heq as <- <- <-.
+    apply (window_slots_spec p _ _ _ _ Hok Hr) in Hs'. tauto.
+  - intros (Hrd & -> & -> & Hs & Hn).
+    destruct (schedule_ready p i Hrd) as (Hj & _). rewrite Hj.
+    apply in_map_iff. exists s. split; [reflexivity|].
+    apply (window_slots_spec p _ _ _ _ Hok Hr). tauto.
+Qed.
+
+(* ============================================================================================ *)
+(* 2. Lists: membership tests, the canonical sort, the duties map.                              *)
+
+Lemma memN_In : forall x l, memN x l = true <-> In x l.
+Proof. intros. unfold memN. apply memb_spec. apply N.eqb_eq. Qed.
+
+Lemma memN_false : forall x l, memN x l = false <-> ~ In x l.
+Proof. intros x l. rewrite <- memN_In. destruct (memN x l); split; congruence. Qed.
+
+Lemma insert_by_perm : forall (A : Type) (key : A -> N) x l, Permutation (insert_by key x l) (x :: l).
+Proof.
+  intros A key x l. induction l as [|y l IH]; cbn; [reflexivity|].
+  destruct (key x <=? key y); [reflexivity|].
+  rewrite IH. apply perm_swap.
+Qed.
+
+Lemma sort_by_perm : forall (A : Type) (key : A -> N) l, Permutation (sort_by key l) l.
+Proof.
+  intros A key l. induction l as [|x l IH]; cbn; [reflexivity|].
+  unfold sort_by in *. cbn. rewrite insert_by_perm. constructor. exact IH.
+Qed.
+
+Lemma sort_by_In : forall (A : Type) (key : A -> N) l x, In x (sort_by key l) <-> In x l.
+Proof.
+  intros. split; apply Permutation_in; [apply sort_by_perm | symmetry; apply sort_by_perm].
+Qed.
+
+Lemma sort_by_nil : forall (A : Type) (key : A -> N) l, sort_by key l = [] <-> l = [].
+Proof.
+  intros A key l. split; intro H.
+  - apply Permutation_nil. rewrite <- H. apply sort_by_perm.
+  - subst. reflexivity.
+Qed.
+
+(* the first entry for key k *)
+Fixpoint get (k : N) (m : list duty) : option (list N) :=
+  match m with
+  | [] => None
+  | (k', v) :: m' => if k' =? k then Some v else get k m'
+  end.
+
+Lemma get_put : forall k v m k', get k' (put k v m) = if k =? k' then Some v else get k' m.
+Proof.
+  intros k v m k'. induction m as [|[k0 v0] m IH]; cbn.
+  - reflexivity.
+  - destruct (N.eqb_spec k0 k) as [->|Hne]; cbn.
+    + destruct (N.eqb_spec k k'); reflexivity.
+    + rewrite IH. destruct (N.eqb_spec k0 k'), (N.eqb_spec k k'); try reflexivity. congruence.
+Qed.
+
+Lemma put_keys : forall k v m, NoDup (map fst m) -> NoDup (map fst (put k v m)) .
+Proof.
+  intros k v m. induction m as [|[k0 v0] m IH]; cbn; intro H.
+  - constructor; [intros []|constructor].
+  - inversion H as [|? ? Hn Hm]; subst.
+    destruct (N.eqb_spec k0 k) as [->|Hne]; cbn.
+    + constructor; assumption.
+    + constructor; [|apply IH; exact Hm].
+      intro Hin. apply Hn. clear - Hin Hne.
+      induction m as [|[k1 v1] m IH]; cbn in *.
+      * destruct Hin as [?|[]]. congruence.
+      * destruct (N.eqb_spec k1 k) as [->|Hne1]; cbn in *; [destruct Hin; [congruence | auto]|].
+        destruct Hin; auto.
+Qed.
+
+Lemma get_In : forall m k v, NoDup (map fst m) -> (In (k, v) m <-> get k m = Some v).
+Proof.
+  induction m as [|[k0 v0] m IH]; cbn; intros k v H.
+  - split; [intros [] | discriminate].
+  - inversion H as [|? ? Hn Hm]; subst.
+    destruct (N.eqb_spec k0 k) as [->|Hne].
+    + split.
+      * intros [Heq|Hin]; [congruence|]. exfalso. apply Hn. apply (in_map fst) in Hin. exact Hin.
+      * intros Heq. left. congruence.
+    + rewrite <- (IH k v Hm). split; [intros [Heq|Hin]; [congruence | exact Hin] | auto].
+Qed.
+
+(* the committee positions of validator v according to the node's answer: those of its LAST entry *)
+Fixpoint last_duty (ds : list duty) (v : N) : option (list N) :=
+  match ds with
+  | [] => None
+  | d :: ds' => match last_duty ds' v with
+                | Some x => Some x
+                | None => if fst d =? v then Some (snd d) else None
+                end
+  end.
+
+Lemma fold_put_get : forall ds m v,
+  get v (fold_left (fun m d => put (fst d) (snd d) m) ds m) =
+    match last_duty ds v with Some x => Some x | None => get v m end.
+Proof.
+  induction ds as [|d ds IH]; intros m v; cbn; [reflexivity|].
+  rewrite IH. destruct (last_duty ds v); [reflexivity|]. rewrite get_put.
+  destruct (fst d =? v); reflexivity.
+Qed.
+
+Lemma fold_put_keys : forall ds m, NoDup (map fst m) ->
+  NoDup (map fst (fold_left (fun m d => put (fst d) (snd d) m) ds m)).
+Proof.
+  induction ds as [|d ds IH]; intros m H; cbn; [exact H|]. apply IH, put_keys, H.
+Qed.
+
+Lemma message_indices_NoDup : forall ds, NoDup (map fst (message_indices ds)).
+Proof.
+  intros ds. unfold message_indices.
+  eapply Permutation_NoDup; [apply Permutation_map; symmetry; apply sort_by_perm|].
+  apply fold_put_keys. constructor.
+Qed.
+
+(* messageIndices[v] = the positions of v's last duty entry *)
+Lemma message_indices_In : forall ds v ps, In (v, ps) (message_indices ds) <-> last_duty ds v = Some ps.
+Proof.
+  intros ds v ps. unfold message_indices. rewrite sort_by_In.
+  rewrite get_In by (apply fold_put_keys; constructor).
+  rewrite fold_put_get. cbn. destruct (last_duty ds v); split; congruence.
+Qed.
+
+Lemma last_duty_some : forall ds v, (exists ps, last_duty ds v = Some ps) <-> In v (map fst ds).
+Proof.
+  induction ds as [|d ds IH]; intros v; cbn.
+  - split; [intros [? H]; discriminate | intros []].
+  - rewrite <- IH. destruct (last_duty ds v) as [x|].
+    + split; eauto.
+    + destruct (N.eqb_spec (fst d) v) as [->|Hne].
+      * split; eauto.
+      * split; [intros [? H]; discriminate | intros [H|[? H]]; congruence].
+Qed.
+
+Lemma members_keys : forall i v, In v (map fst (members i)) <->
+  exists ds, si_duties i = Some ds /\ In v (map fst ds).
+Proof.
+  intros i v. unfold members. destruct (si_duties i) as [ds|].
+  - split.
+    + intros H. exists ds. split; [reflexivity|]. apply last_duty_some.
+      apply in_map_iff in H. destruct H as ([v' ps] & <- & H). exists ps. apply message_indices_In. exact H.
+    + intros (ds' & Heq & H). injection Heq as <-. apply last_duty_some in H. destruct H as (ps & H).
+      apply message_indices_In in H. apply (in_map fst) in H. exact H.
+  - cbn. split; [intros [] | intros (? & H & _); discriminate].
+Qed.
+
+Lemma members_NoDup : forall i, NoDup (map fst (members i)).
+Proof. intros i. unfold members. destruct (si_duties i); [apply message_indices_NoDup | constructor]. Qed.
+
+Lemma has_account_spec : forall i v, has_account i v = true <->
+  exists a, si_accts i = Some a /\ In v a /\ In v (si_indices i).
+Proof.
+  intros i v. unfold has_account. destruct (si_accts i) as [a|].
+  - rewrite andb_true_iff, !memN_In. split; [intros [H1 H2]; eauto | intros (a' & Heq & H1 & H2); injection Heq as <-; auto].
+  - split; [discriminate | intros (? & H & _); discriminate].
+Qed.
+
+(* Before the Altair fork (in particular with the fork epoch at FAR_FUTURE_EPOCH = 2^64-1, outside
+   [in_range]) the call does nothing at all: no request, no job, no subscription. *)
+Lemma before_fork_nothing : forall p i,
+  epoch_of_slot p (si_cur i) < fork p -> schedule p i = nothing None.
+Proof.
+  intros p i H. unfold schedule. destruct (si_indices i); [reflexivity|].
+  destruct (N.ltb_spec (epoch_of_slot p (si_cur i)) (fork p)); [reflexivity | lia].
+Qed.
+
+(* Consecutive periods: the window of the next period (scheduled ahead of time) starts exactly one
+   slot after the window of this period ends -- the slot before a period's last slot belongs to this
+   period, the last slot itself to the next one -- so the windows tile the slot line: no slot
+   without a message duty, none with two. *)
+Lemma windows_tile : forall p epoch cur,
+  chain_ok p -> cur < period_end p epoch ->
+  period_start p (epoch + epp p) = period_end p epoch
+  /\ spec_first p (epoch + epp p) cur = spec_last p epoch + 1.
+Proof.
+  intros p epoch cur Hok Hc. pose proof Hok as (Hs & He & H2).
+  assert (Hq : (epoch + epp p) / epp p = epoch / epp p + 1).
+  { replace (epoch + epp p) with (epoch + 1 * epp p) by lia. apply N.div_add. lia. }
+  assert (Hst : period_start p (epoch + epp p) = period_end p epoch).
+  { unfold period_start, period_end, period_first_epoch, period_next_epoch. rewrite Hq. reflexivity. }
+  split; [exact Hst|].
+  unfold spec_first, spec_last. rewrite Hst.
+  assert (HE : 2 <= period_end p epoch).
+  { unfold period_end, period_next_epoch.
+    assert (spe p * epp p <= (epoch / epp p + 1) * epp p * spe p).
+    { replace ((epoch / epp p + 1) * epp p * spe p) with (epoch / epp p * (epp p * spe p) + spe p * epp p) by ring.
+      apply N.le_add_l. }
+    assert ((epoch / epp p + 1) * epp p * spe p <= N.max ((epoch / epp p + 1) * epp p) (fork p) * spe p)
+      by (apply N.mul_le_mono_r; lia).
+    lia. }
+  lia.
+Qed.
